@@ -326,7 +326,7 @@ func c17ForgeQSPP(r, Pprime, Qprime, challenge *big.Int, commit quasiSafePrimePr
 func TestVerifC17ZeroCommitments(t *testing.T) {
 	r := vkit.Start(t, "C17", "zero-commitments-anywhere", 400*time.Second, 1500*time.Second)
 	defer r.Finish()
-	r.Rule = "toy key (48-bit safe primes), replica of BuildProof; commitment leaves (fields named Commit) of PprimeIsPrimeProof, QprimeIsPrimeProof and BasesValidProof: first, middle and last of each (thorough: every 7th) x value {0, group prime}; alteration made before the challenge is fixed, challenge = hash of what the verifier reconstructs, proof rebuilt for it; non-trivial = distinct (leaf, value); oracle: control (no alteration) accepted; every altered proof rejected"
+	r.Rule = "toy key (48-bit safe primes), replica of BuildProof; commitment leaves (fields named Commit; not the branch-local copies inside exponentiation steps, which nothing is opened against) of PprimeIsPrimeProof, QprimeIsPrimeProof and BasesValidProof: first, middle and last of each (thorough: every 7th) x value {0, group prime}; alteration made before the challenge is fixed, challenge = hash of what the verifier reconstructs, proof rebuilt for it; non-trivial = distinct (leaf, value); oracle: control (no alteration) accepted; every altered proof rejected"
 	common.VerifSeedCPRNG([32]byte{17, 9})
 	rd := c17Seeded("zero-anywhere")
 	var P, Q *big.Int
@@ -351,6 +351,13 @@ func TestVerifC17ZeroCommitments(t *testing.T) {
 	var order []string
 	for _, lf := range leaves {
 		if !strings.HasSuffix(lf.path, ".Commit") {
+			continue
+		}
+		if strings.HasSuffix(lf.path, ".Bproof.Mul.Commit") {
+			// the copy of the base-power commitment inside a step's "bit = 1" branch is not a commitment
+			// anything is opened against (since F42 the opening is checked against the surrounding proof's
+			// commitment; the copy only enters the challenge): any value the prover fixes before the challenge
+			// leaves the statement fully checked
 			continue
 		}
 		for _, top := range []string{".PprimeIsPrimeProof", ".QprimeIsPrimeProof", ".BasesValidProof"} {
